@@ -75,15 +75,16 @@ fn seg(s: Seg, m: &[u8], _q: usize) -> Vec<u8> {
     let n = m.len();
     match s {
         Seg::S => {
-            // model: 30 zero bytes, then the value 0..=256 big-endian in two bytes
+            // model: 30 zero octets, then [0, 0] for zero or [1, v - 1] for a non-zero value v
             let hi_zero = m[..30].iter().all(|b| *b == 0);
-            let v = ((m[30] as usize) << 8) | m[31] as usize;
-            if hi_zero && v <= 256 {
-                Scalar::from(v as u64).to_be_bytes().to_vec()
+            if hi_zero && m[30] == 1 {
+                Scalar::from(m[31] as u64 + 1).to_be_bytes().to_vec()
+            } else if hi_zero && m[30] == 0 && m[31] == 0 {
+                vec![0u8; 32]
             } else if hi_zero {
-                // value >= Q in the model: r + (v - 257) >= r in the real field
+                // non-canonical in the model: a value >= r in the real field (r + small)
                 let mut b = R_BE;
-                let add = ((v - 257) & 0xff) as u16 + b[31] as u16;
+                let add = m[31] as u16 + b[31] as u16;
                 b[31] = (add & 0xff) as u8;
                 if add > 0xff {
                     b[30] = b[30].wrapping_add(1);
